@@ -609,10 +609,30 @@ def r22(e: Engine, rep: Report):
                       'spawned and joined', loc=lp2.loc(),
                       reason='loop exhausted before return')
     elif tv is None or not loops:
-        rep.bad('R2.2', where, 'spawned writes are waited for',
-                '_pool_imap no longer iterates over the greenlets it '
-                'spawned: enqueue returns before the writes finished',
-                loc=ctx.func.loc())
+        # nothing that waits anywhere in reach: the writes are not waited
+        # for; a wait in a shape not read here is undecided, not a violation
+        qc = common.merged_class(e, QUEUE)
+        fns = [ctx.func.node] + [
+            qc.methods[x.attr].node for x in walk_own(ctx.func.node)
+            if isinstance(x, ast.Attribute) and
+            isinstance(x.value, ast.Name) and x.value.id == 'self' and
+            x.attr in qc.methods]
+        waits = any(isinstance(y, ast.Call) and (
+            (isinstance(y.func, ast.Attribute) and
+             y.func.attr in ('join', 'get', 'joinall', 'wait')) or
+            (isinstance(y.func, ast.Name) and
+             y.func.id in ('joinall', 'wait')))
+            for fn in fns for y in ast.walk(fn))
+        if waits:
+            rep.unknown('R2.2', where, 'spawned writes are waited for',
+                        'cannot see how _pool_imap pairs the greenlets it '
+                        'spawns with the join()/get() in reach',
+                        loc=ctx.func.loc())
+        else:
+            rep.bad('R2.2', where, 'spawned writes are waited for',
+                    '_pool_imap no longer iterates over the greenlets it '
+                    'spawned: enqueue returns before the writes finished',
+                    loc=ctx.func.loc())
     else:
         lp = loops[0]
         lv = path_of(lp.ast.target, lp.frame)
